@@ -110,6 +110,7 @@ type argStats struct {
 
 func (c *Ctx) checkArgMaps(sdl string, report bool) {
 	st := &argStats{panicEx: map[string]string{}}
+	evalsBefore := c.Ev.Evals
 	var docs []string
 	for _, d := range argDocs {
 		if strings.Contains(d, "%C") {
@@ -201,6 +202,7 @@ func (c *Ctx) checkArgMaps(sdl string, report bool) {
 	for i := range got {
 		st.sites++
 		c.Ev.Traces++
+		c.Ev.Case(dreqs[i], strings.Contains(dreqs[i], "(A "))
 		if k := strings.Index(dreqs[i], "(list "); k >= 0 {
 			// the request is `argmap (list <argdefs|nodef> <args> <vardefs> <vars>)`
 			rest := dreqs[i][k+6:]
@@ -281,12 +283,20 @@ func (c *Ctx) checkArgMaps(sdl string, report bool) {
 	for _, e := range st.specOther {
 		fmt.Println("   OTHER:", e[:min(700, len(e))])
 	}
+	for _, e := range st.specEx {
+		c.Ev.Sample(map[string]any{"kind": "differs from the specification by the variable links only (known finding)", "example": e[:min(600, len(e))]})
+	}
+	c.Ev.Assume = append(c.Ev.Assume,
+		"the variables map passed coercion by VariableValues of the executed operation (C14): every variable with a default has an entry (DefaultsSupplied)",
+		"the sites judged are those of the executed operation: its directives, its selection set and the fragments it reaches",
+		"C15_precedence_linked assumes LinksAgree: the variable definitions the value nodes are linked to carry the same defaults as those of the executed operation (false only in the known finding default-of-another-operation-linked)",
+		"literal leaves are written as the lexer writes them (wellLexedB), argument names of a definition are unique (C07)")
 	printCounts("argmap distribution:", dist)
 	c.Ev.Extra["argmap_distribution"] = dist
-	c.Ev.Rule = "hand-written documents (every argument kind, custom-scalar literals, variables nested in lists/objects, directives at every location, several operations sharing a fragment, every operation executed) + generated schemas/documents (internal/gen) executed with generated conforming variables; every field and directive site"
+	c.Ev.Rule = "nontrivial = a site where at least one argument is written. hand-written documents (every argument kind, custom-scalar literals, variables nested in lists/objects, directives at every location, several operations sharing a fragment, every operation executed) + generated schemas/documents (internal/gen) executed with generated conforming variables; every field and directive site"
 	c.Ev.Extra["argmap"] = map[string]int{"documents": st.docs, "documents_rejected_by_validation": st.invalid, "sites": st.sites, "go_ok": st.ok, "go_panic": st.panics,
 		"coercion_failed_pairs": st.nocoerce, "spec_checked_sites": st.specChecked, "spec_differs": st.specDiff, "spec_differs_by_links_only": st.specLinked}
-	c.Ev.Evals += st.sites
+	c.Ev.Evals = evalsBefore + st.sites
 	if !report {
 		return
 	}
